@@ -321,6 +321,83 @@ theorem query_boundary_counts_reset (resets : List String)
   unfold reset
   simp only [h, if_true]
 
+/-! ## the memo layer -/
+
+/-- what the memo decorators remember and what the materialising decorators return, as it stands in
+the source: the plain ones store the returned object as it is; `inference_state_method_generator_cache`
+keeps `(generator, list of what it produced)`; `signature_time_cache` takes the value out of the
+generator itself; `to_list` / `to_tuple` / `iterator_to_value_set` build `list` / `tuple` /
+`ValueSet` (a `frozenset`) -/
+theorem memo_decorators_transcribed :
+    Gen.C16.memoStoreShapes =
+      ["jedi/inference/cache.py:_memoize_default stores memo[key] = rv",
+       "jedi/cache.py:memoize_method stores dct[key] = result",
+       "jedi/cache.py:time_cache stores cache[key] = (time.time(), result)",
+       "jedi/inference/cache.py:inference_state_method_generator_cache stores (actual_generator, cached_lst)",
+       "jedi/cache.py:signature_time_cache stores next(generator)",
+       "jedi/inference/utils.py:to_list returns list(func(*args, **kwargs))",
+       "jedi/inference/utils.py:to_tuple returns tuple(func(*args, **kwargs))",
+       "jedi/inference/base_value.py:iterator_to_value_set returns ValueSet(func(*args, **kwargs))",
+       "jedi/inference/base_value.py:ValueSet.__init__ self._set = frozenset(iterable)"] := by decide
+
+/-- memoised generator functions of the unchanged source that are stored as they are (known
+finding C16-pytest-modules-generator-memoised, proposed fix: `inference_state_method_generator_cache`) -/
+def knownUnreplayable : List String := ["jedi/plugins/pytest.py:_iter_pytest_modules"]
+
+/- FULL: `∀ e ∈ Gen.C16.memoTable, entryReplayable e = true` - false on the unchanged source:
+   `jedi/plugins/pytest.py:_iter_pytest_modules` is a generator function directly under
+   `inference_state_method_cache()` (reproduced on the real code, see the finding); it becomes true
+   with the proposed fix, and then `knownUnreplayable` can be emptied. -/
+/-- `memo_values_are_replayable` (`_partial`: all but the known exception): for EVERY function in
+`jedi/` under a memo decorator - the table the translator extracts by walking all of `jedi/` - a
+function that hands out a one-shot iterator (generator function, generator expression, `map` …) has a
+materialising decorator between itself and every remembering decorator, or the remembering decorator
+is one of the two that handle generators themselves. So what the memo holds can be read any number
+of times. Moving `inference_state_method_cache()` below `iterator_to_value_set` / `to_list`, or
+caching a `yield`-ing function, breaks this. -/
+theorem memo_values_are_replayable_partial :
+    ∀ e ∈ Gen.C16.memoTable, entryReplayable e = true ∨ e.1 ∈ knownUnreplayable := by decide
+
+/-- the stacks of the source are fine, the same decorators in the other order are not; a generator
+function directly under a plain memo decorator is not (the pytest finding); under the
+generator-aware one it is -/
+theorem memo_stack_order_matters :
+    entryReplayable ("f", ["inference_state_method_cache", "iterator_to_value_set"], true) = true ∧
+    entryReplayable ("f", ["iterator_to_value_set", "inference_state_method_cache"], true) = false ∧
+    entryReplayable ("f", ["inference_state_method_cache", "to_list"], true) = true ∧
+    entryReplayable ("f", ["to_list", "inference_state_method_cache"], true) = false ∧
+    entryReplayable ("f", ["inference_state_method_cache"], true) = false ∧
+    entryReplayable ("f", ["inference_state_method_generator_cache"], true) = true ∧
+    entryReplayable ("f", ["inference_state_method_cache", "inference_state_method_generator_cache"], true) = false := by
+  decide
+
+/-- a memo entry that holds a materialised container answers every reader the same, however much
+each reader takes -/
+theorem materialised_memo_replayable {α : Type} (xs : List α) (ks : List Nat) :
+    (Stored.materialised xs).reads ks = ks.map (xs.take ·) := reads_materialised xs ks
+
+/-- so does the entry of `inference_state_method_generator_cache` (generator + what it produced so
+far), even when a reader stops early -/
+theorem generator_cache_replayable {α : Type} (xs : List α) (ks : List Nat) :
+    (Stored.replaying [] xs).reads ks = ks.map (xs.take ·) := by
+  simpa using reads_replaying ks ([] : List α) xs
+
+/-- a memo entry that holds the generator itself does not: the second reader continues where the
+first one stopped; after a reader that took everything, every later reader gets nothing -/
+theorem one_shot_memo_not_replayable {α : Type} (xs : List α) (j k : Nat) :
+    (Stored.oneShot xs).reads [j, k] = [xs.take j, (xs.drop j).take k] ∧
+    (Stored.oneShot xs).reads [xs.length, k] = [xs, []] := by
+  refine ⟨reads_oneShot_pair xs j k, ?_⟩
+  rw [reads_oneShot_pair]
+  simp
+
+/-- concrete: the docstring type `[Widget]` read at two call sites; the pytest modules
+`[own, conftest, plugin]` read by two fixture lookups that each stop at the first module -/
+theorem one_shot_memo_witness :
+    (Stored.oneShot [7]).reads [1, 1] = [[7], []] ∧ (Stored.materialised [7]).reads [1, 1] = [[7], [7]] ∧
+    (Stored.oneShot [0, 1, 2]).reads [1, 1] = [[0], [1]] ∧ (Stored.replaying [] [0, 1, 2]).reads [1, 1] = [[0], [0]] := by
+  decide
+
 /-! ## the memo across queries -/
 
 /-- `memo_order_independent_acyclic`: on an acyclic dependency graph, whatever roots were asked
